@@ -1,20 +1,18 @@
 //go:build verif
 
-// Contracts for package hotline (comment-only; see /verif/DESIGN.md).
+// Contracts for package hotline.  Comment-only file: with the build tag `verif` off it
+// is not part of the build.  The wire layouts (define wire_*) are transcribed from
+// docs/HLProtocol.pages.pdf (see /verif/DESIGN.md, Appendix B), not from the code.
 package hotline
+
+// ---------------------------------------------------------------------------------
+// Field (parameter of a transaction): field ID 2, field size 2, data
 
 //@ define wire_Field(f) := cat(bytes(f.Type), be16(len(f.Data)), bytes(f.Data))
 //@ define inv_Field(f) := len(f.Data) <= 65535 && u16(bytes(f.FieldSize)) == len(f.Data)
 
 //@ func (f *Field) Read(p []byte) (n int, err error)
-//@   requires f != nil && inv_Field(f) && f.readOffset >= 0
-//@   let W := old(wire_Field(f))
-//@   ensures old(f.readOffset) >= len(W) ==> n == 0 && is_eof(err)
-//@   ensures old(f.readOffset) < len(W) ==> err == nil && n == min(len(p), len(W)-old(f.readOffset))
-//@   ensures old(f.readOffset) < len(W) ==> f.readOffset == old(f.readOffset)+n
-//@   ensures old(f.readOffset) >= len(W) ==> f.readOffset == old(f.readOffset)
-//@   ensures forall(i, 0, n, p[i] == W[old(f.readOffset)+i])
-//@   nopanic
+//@   cursor wire_Field readOffset inv_Field
 
 //@ func NewField(fieldType [2]byte, data []byte) (r Field)
 //@   requires len(data) <= 65535
@@ -55,21 +53,179 @@ package hotline
 //@   ensures len(f.Data) != 2 && len(f.Data) != 4 ==> err != nil
 //@   nopanic
 
-//@ define wire_User(u) := cat(bytes(u.ID), bytes(u.Icon), bytes(u.Flags), be16(len(u.Name)), bytes(u.Name))
-
-//@ func (u *User) Read(p []byte) (n int, err error)
-//@   requires u != nil && u.readOffset >= 0 && len(u.Icon) == 2 && len(u.Flags) == 2 && len(u.Name) <= 65535
-//@   let W := old(wire_User(u))
-//@   ensures old(u.readOffset) >= len(W) ==> n == 0 && is_eof(err)
-//@   ensures old(u.readOffset) < len(W) ==> err == nil && n == min(len(p), len(W)-old(u.readOffset))
-//@   ensures old(u.readOffset) < len(W) ==> u.readOffset == old(u.readOffset)+n
-//@   ensures forall(i, 0, n, p[i] == W[old(u.readOffset)+i])
-//@   nopanic
-
 //@ func EncodeString(clearText []byte) (obfuText []byte)
 //@   ensures len(obfuText) == len(clearText) && fresh(obfuText)
 //@   ensures forall(i, 0, len(clearText), obfuText[i] == 255 - old(clearText[i]))
 //@   loop 1 invariant 0 <= i && i <= len(clearText) && len(obfuText) == len(clearText) && fresh(obfuText)
 //@   loop 1 invariant forall(j, 0, i, obfuText[j] == 255 - old(clearText[j]))
 //@   loop 1 modifies obfuText
+//@   nopanic
+
+// ---------------------------------------------------------------------------------
+// User name with info (300): user ID 2, icon ID 2, flags 2, name size 2, name
+
+//@ define wire_User(u) := cat(bytes(u.ID), bytes(u.Icon), bytes(u.Flags), be16(len(u.Name)), bytes(u.Name))
+//@ define inv_User(u) := len(u.Icon) == 2 && len(u.Flags) == 2 && len(u.Name) <= 65535
+
+//@ func (u *User) Read(p []byte) (n int, err error)
+//@   cursor wire_User readOffset inv_User
+
+//@ func (u *User) Write(p []byte) (n int, err error)
+//@   requires u != nil && len(p) >= 8 && len(p) >= 8+u16(bytes(p),6)
+//@   ensures err == nil && n == 8+u16(bytes(p),6)
+//@   ensures u.ID[0] == p[0] && u.ID[1] == p[1] && bytes(u.Icon) == bytes(p)[2:4] && bytes(u.Flags) == bytes(p)[4:6]
+//@   ensures bytes(u.Name) == bytes(p)[8:n]
+//@   nopanic
+
+// ---------------------------------------------------------------------------------
+// File name with info (200): type 4, creator 4, file size 4, reserved 4, name script 2, name size 2, name
+
+//@ define wire_FNWI(f) := cat(bytes(f.FileNameWithInfoHeader.Type), bytes(f.FileNameWithInfoHeader.Creator), bytes(f.FileNameWithInfoHeader.FileSize), bytes(f.FileNameWithInfoHeader.RSVD), bytes(f.FileNameWithInfoHeader.NameScript), be16(len(f.Name)), bytes(f.Name))
+//@ define inv_FNWI(f) := len(f.Name) <= 65535 && u16(bytes(f.FileNameWithInfoHeader.NameSize)) == len(f.Name)
+
+//@ func (f *FileNameWithInfo) Read(p []byte) (n int, err error)
+//@   cursor wire_FNWI readOffset inv_FNWI
+
+//@ func (f *FileNameWithInfo) Write(p []byte) (n int, err error)
+//@   requires f != nil
+//@   ensures len(p) < 20 ==> err != nil
+//@   ensures len(p) >= 20 && len(p) >= 20+u16(bytes(p),18) ==> err == nil && n == len(p) && inv_FNWI(f)
+//@   ensures err == nil ==> bytes(f.FileNameWithInfoHeader.Type) == bytes(p)[0:4] && bytes(f.FileNameWithInfoHeader.Creator) == bytes(p)[4:8] && bytes(f.FileNameWithInfoHeader.FileSize) == bytes(p)[8:12]
+//@   ensures err == nil ==> bytes(f.FileNameWithInfoHeader.NameScript) == bytes(p)[16:18] && bytes(f.Name) == bytes(p)[20:20+u16(bytes(p),18)]
+
+// ---------------------------------------------------------------------------------
+// Flattened file object.  Information fork: platform 4, type 4, creator 4, flags 4,
+// platform flags 4, RSVD 32, create date 8, modify date 8, name script 2, name size 2,
+// name, comment size 2, comment.
+
+//@ define wire_InfoFork(i) := cat(bytes(i.Platform), bytes(i.TypeSignature), bytes(i.CreatorSignature), bytes(i.Flags), bytes(i.PlatformFlags), bytes(i.RSVD), bytes(i.CreateDate), bytes(i.ModifyDate), bytes(i.NameScript), be16(len(i.Name)), bytes(i.Name), be16(len(i.Comment)), bytes(i.Comment))
+//@ define inv_InfoFork(i) := len(i.Name) <= 65535 && len(i.Comment) <= 65535 && u16(bytes(i.CommentSize)) == len(i.Comment)
+
+//@ func (ffif *FlatFileInformationFork) Read(p []byte) (n int, err error)
+//@   cursor wire_InfoFork readOffset inv_InfoFork
+
+//@ func (ffif *FlatFileInformationFork) DataSize() (size []byte)
+//@   requires ffif != nil && len(ffif.Name) <= 65535 && len(ffif.Comment) <= 65535
+//@   ensures len(size) == 4 && fresh(size) && u32(bytes(size)) == len(old(wire_InfoFork(ffif)))
+//@   nopanic
+
+//@ func (ffif *FlatFileInformationFork) Size() (size [4]byte)
+//@   requires ffif != nil && len(ffif.Name) <= 65535 && len(ffif.Comment) <= 65535
+//@   ensures u32(bytes(size)) == len(old(wire_InfoFork(ffif)))
+//@   nopanic
+
+//@ func (ffif *FlatFileInformationFork) ReadNameSize() (size []byte)
+//@   requires ffif != nil && len(ffif.Name) <= 65535
+//@   ensures len(size) == 2 && fresh(size) && u16(bytes(size)) == len(ffif.Name)
+//@   nopanic
+
+//@ func (ffif *FlatFileInformationFork) SetComment(comment []byte) (err error)
+//@   requires ffif != nil && len(comment) <= 65535 && len(ffif.Name) <= 65535
+//@   ensures err == nil && same(ffif.Comment, comment) && inv_InfoFork(ffif)
+//@   nopanic
+
+//@ func (ffif *FlatFileInformationFork) UnmarshalBinary(b []byte) (err error)
+//@   let nameEnd := 72 + u16(bytes(b),70)
+//@   requires ffif != nil && len(b) >= 72 && len(b) <= 65535 && len(b) >= nameEnd
+//@   requires len(b) > nameEnd ==> len(b) >= nameEnd+2 && len(b) >= nameEnd+2+u16(bytes(b),nameEnd)
+//@   ensures err == nil
+//@   ensures bytes(ffif.Platform) == bytes(b)[0:4] && bytes(ffif.TypeSignature) == bytes(b)[4:8] && bytes(ffif.CreatorSignature) == bytes(b)[8:12]
+//@   ensures bytes(ffif.Flags) == bytes(b)[12:16] && bytes(ffif.PlatformFlags) == bytes(b)[16:20] && bytes(ffif.RSVD) == bytes(b)[20:52]
+//@   ensures bytes(ffif.CreateDate) == bytes(b)[52:60] && bytes(ffif.ModifyDate) == bytes(b)[60:68] && bytes(ffif.NameScript) == bytes(b)[68:70]
+//@   ensures bytes(ffif.Name) == bytes(b)[72:nameEnd]
+//@   ensures len(b) > nameEnd ==> bytes(ffif.Comment) == bytes(b)[nameEnd+2:nameEnd+2+u16(bytes(b),nameEnd)] && u16(bytes(ffif.CommentSize)) == len(ffif.Comment)
+//@   nopanic
+
+//@ func (ffif *FlatFileInformationFork) Write(p []byte) (n int, err error)
+//@   let nameEnd := 72 + u16(bytes(p),70)
+//@   requires ffif != nil && len(p) >= 72 && len(p) <= 65535 && len(p) >= nameEnd
+//@   requires len(p) > nameEnd ==> len(p) >= nameEnd+2 && len(p) >= nameEnd+2+u16(bytes(p),nameEnd)
+//@   ensures err == nil && n == len(p)
+//@   ensures bytes(ffif.Platform) == bytes(p)[0:4] && bytes(ffif.TypeSignature) == bytes(p)[4:8] && bytes(ffif.CreatorSignature) == bytes(p)[8:12]
+//@   ensures bytes(ffif.Flags) == bytes(p)[12:16] && bytes(ffif.PlatformFlags) == bytes(p)[16:20] && bytes(ffif.RSVD) == bytes(p)[20:52]
+//@   ensures bytes(ffif.CreateDate) == bytes(p)[52:60] && bytes(ffif.ModifyDate) == bytes(p)[60:68] && bytes(ffif.NameScript) == bytes(p)[68:70]
+//@   ensures bytes(ffif.Name) == bytes(p)[72:nameEnd]
+//@   ensures len(p) > nameEnd ==> bytes(ffif.Comment) == bytes(p)[nameEnd+2:nameEnd+2+u16(bytes(p),nameEnd)] && u16(bytes(ffif.CommentSize)) == len(ffif.Comment)
+//@   nopanic
+
+// Flattened file header "FILP" 4, version 2 (=1), RSVD 16, fork count 2; fork header: fork
+// type 4, compression 4, RSVD 4, data size 4.  Emitted up to and including the DATA fork header.
+
+//@ define wire_FFO(o) := cat("FILP", seq(0,1), zeros(16), bytes(o.FlatFileHeader.ForkCount), "INFO", zeros(4), zeros(4), be32(len(wire_InfoFork(o.FlatFileInformationFork))), wire_InfoFork(o.FlatFileInformationFork), "DATA", bytes(o.FlatFileDataForkHeader.CompressionType), bytes(o.FlatFileDataForkHeader.RSVD), bytes(o.FlatFileDataForkHeader.DataSize))
+//@ define inv_FFO(o) := bytes(o.FlatFileHeader.Format) == "FILP" && bytes(o.FlatFileHeader.Version) == seq(0,1) && bytes(o.FlatFileHeader.RSVD) == zeros(16) && bytes(o.FlatFileDataForkHeader.ForkType) == "DATA" && inv_InfoFork(o.FlatFileInformationFork)
+
+//@ func (ffo *flattenedFileObject) Read(p []byte) (n int, err error)
+//@   cursor wire_FFO readOffset inv_FFO
+
+// ---------------------------------------------------------------------------------
+// Folder download item header: header size 2, type 2, file path
+
+//@ define wire_FileHeader(h) := cat(be16(2+len(h.FilePath)), bytes(h.Type), bytes(h.FilePath))
+//@ define inv_FileHeader(h) := len(h.FilePath) <= 65533 && u16(bytes(h.Size)) == 2+len(h.FilePath)
+
+//@ func (fh *FileHeader) Read(p []byte) (n int, err error)
+//@   cursor wire_FileHeader readOffset inv_FileHeader
+
+// ---------------------------------------------------------------------------------
+// News.  Article list entry: ID 4, time stamp 8, parent ID 4, flags 4, flavor count 2,
+// title size 1, title, poster size 1, poster, flavor size 1, MIME string, article size 2.
+
+//@ define wire_NewsArtList(a) := cat(bytes(a.ID), bytes(a.TimeStamp), bytes(a.ParentID), bytes(a.Flags), seq(0,1), seq(len(a.Title)), bytes(a.Title), seq(len(a.Poster)), bytes(a.Poster), seq(10), "text/plain", bytes(a.ArticleSize))
+//@ define inv_NewsArtList(a) := len(a.Title) <= 255 && len(a.Poster) <= 255
+
+//@ func (nal *NewsArtList) Read(p []byte) (n int, err error)
+//@   cursor wire_NewsArtList readOffset inv_NewsArtList
+
+// News article list data (321): ID 4, article count 4, name size 1, name, description size 1,
+// description, articles.
+
+//@ define wire_NewsArtListData(d) := cat(bytes(d.ID), be32(d.Count), seq(len(d.Name)), bytes(d.Name), seq(len(d.Description)), bytes(d.Description), bytes(d.NewsArtList))
+//@ define inv_NewsArtListData(d) := len(d.Name) <= 255 && len(d.Description) <= 255 && 0 <= d.Count && d.Count <= 4294967295
+
+//@ func (nald *NewsArtListData) Read(p []byte) (n int, err error)
+//@   cursor wire_NewsArtListData readOffset inv_NewsArtListData
+
+// ---------------------------------------------------------------------------------
+// Tracker registration (UDP): 0x0001, port 2, user count 2, 0x0000, pass ID 4, name size 1,
+// name, description size 1, description, password size 1, password.
+
+//@ define wire_TrackerReg(t) := cat(seq(0,1), bytes(t.Port), be16(t.UserCount), seq(0,0), bytes(t.PassID), seq(len(t.Name)), bytes(t.Name), seq(len(t.Description)), bytes(t.Description), seq(len(t.Password)), bytes(t.Password))
+//@ define inv_TrackerReg(t) := len(t.Name) <= 255 && len(t.Description) <= 255 && len(t.Password) <= 255 && 0 <= t.UserCount && t.UserCount <= 65535
+
+//@ func (tr *TrackerRegistration) Read(p []byte) (n int, err error)
+//@   cursor wire_TrackerReg readOffset inv_TrackerReg
+
+// ---------------------------------------------------------------------------------
+// Decoders of fixed records
+
+//@ func (h *handshake) Write(p []byte) (n int, err error)
+//@   requires h != nil
+//@   ensures len(p) != 12 ==> err != nil && n == 0
+//@   ensures len(p) == 12 ==> err == nil && n == 12 && bytes(h.Protocol) == bytes(p)[0:4] && bytes(h.SubProtocol) == bytes(p)[4:8] && bytes(h.Version) == bytes(p)[8:10] && bytes(h.SubVersion) == bytes(p)[10:12]
+//@   nopanic
+
+//@ func (h *handshake) Valid() (ok bool)
+//@   requires h != nil
+//@   ensures ok == (bytes(h.Protocol) == "TRTP" && bytes(h.SubProtocol) == "HOTL")
+//@   nopanic
+
+//@ func (tf *transfer) Write(b []byte) (n int, err error)
+//@   requires tf != nil
+//@   ensures len(b) < 16 ==> err != nil
+//@   ensures err == nil ==> n == len(b) && len(b) >= 16 && bytes(tf.Protocol) == "HTXF" && bytes(tf.ReferenceNumber) == bytes(b)[4:8] && bytes(tf.DataSize) == bytes(b)[8:12]
+//@   ensures len(b) >= 16 && bytes(b)[0:4] == "HTXF" ==> err == nil
+//@   nopanic
+
+//@ func (fpi *FilePathItem) Write(b []byte) (n int, err error)
+//@   requires fpi != nil
+//@   ensures len(b) < 3 ==> err != nil
+//@   ensures len(b) >= 3 && len(b) >= 3+b[2] ==> err == nil && n == 3+b[2] && fpi.Len == b[2] && bytes(fpi.Name) == bytes(b)[3:3+b[2]]
+
+//@ func fileItemScanner(data []byte, atEOF bool) (advance int, token []byte, err error)
+//@   ensures err == nil
+//@   ensures len(data) < 3 ==> advance == 0 && isnil(token)
+
+//@ func NewForkInfoList(b []byte) (r *ForkInfoList)
+//@   requires len(b) >= 4
+//@   ensures r != nil && bytes(r.Fork) == "DATA" && bytes(r.DataSize) == bytes(b)[0:4] && bytes(r.RSVDA) == zeros(4) && bytes(r.RSVDB) == zeros(4)
 //@   nopanic
